@@ -123,6 +123,9 @@ def gen_C06(g, tier):
             for lag in range(0, 4):
                 cs.append(Case('sm.xcov %d %d %s %d %s' % (n, lag, dhex(cv), k, hexes(xs)), 'cmp', 'xcov-lag%d' % lag, check=finite_all))
             cs.append(Case('sm.single %d %s %d %s' % (n, dhex(cv), k, hexes(xs)), 'cmp', 'single-stub'))
+            if n <= 40:
+                for m in (n, n + 3, max(1, n - 1), 1, 2 * n + 1):
+                    cs.append(Case('o.c06.worker %d %d %d %s %d %s' % (n, m, g.randint(0, 3), dhex(cv), k, hexes(xs)), 'orc', 'worker-from-object-with-other-size', check=small_hex_check(1e-12)))
     for smooth in (1, 2, 3, 4, 7):
         for ns in (1, 2, 5):
             cs.append(Case('o.c06.boxcarsample %d %d %d' % (smooth, ns, smooth + 3), 'orc', 'boxcar-sample', check=small_hex_list(2)))
@@ -202,6 +205,12 @@ def gen_C07(g, tier):
     for w in (2, 3, 4, 6):
         for n1, n2 in ((6, 2), (6, 4), (9, 3), (3, 9), (2, 6), (5, 5), (4, 1), (1, 4)):
             cs.append(Case('o.c07.retable %d %d %d' % (w, n1, n2), 'orc', 'rectangular-reconfigured', check=small_hex_check(1e-15)))
+    # the modulation index changes after the decorating model was built (and, in half of the cases, queried)
+    for kind in ('square', 'boxcar', 'plain'):
+        for w, n in ((2, 2), (3, 2), (4, 6), (6, 4), (5, 5)):
+            for use in (0, 1):
+                b1, b2 = g.choice([(1.0, 0.5), (0.5, 1.0), (0.3, 0.7), (2.0, 0.25)])
+                cs.append(Case('o.c07.rebeta %s %d %d %s %s %d' % (kind, w, n, dhex(b1), dhex(b2), use), 'orc', 'index-changed-after-decoration', check=small_hex_check(1e-13)))
     return cs
 
 
@@ -259,6 +268,11 @@ def gen_C08(g, tier):
         while len(pat) < n:
             pat += [g.choice('AB')] * g.randint(1, 12)
         cs.append(Case('o.c08.pairing %s' % ''.join(pat[:n]), 'orc', 'pairing-long'))
+    for which in (0, 1):
+        for tries in (1, 2, 3):
+            for _ in range(2 if tier == 'quick' else 20):
+                pat = ''.join(g.choice('AB') for _ in range(g.randint(2, 12)))
+                cs.append(Case('o.c08.early %d %d %s' % (which, tries, pat), 'orc', 'request-before-partner-exists'))
     betas = [0.1, 0.3, 0.5, 1.0, 2.0]
     for b0 in betas:
         for b1 in betas:
@@ -417,6 +431,11 @@ def gen_C05(g, tier):
         kappa = g.choice([0.0, 0.3, -0.2])
         cs.append(Case('o.c05.composite %s %d %s %s %s' % (dhex(f), ns, dhex(kappa), hexes(SA), hexes(SB)), 'orc', 'composite-moments', check=c05_small(2, 1e-12)))
         cs.append(Case('o.c05.disjoint %s %d %s %s' % (dhex(f), g.choice([1, 1, 2]), hexes(SA), hexes(SB)), 'orc', 'disjoint-moments', check=c05_small(4, 2e-9)))
+        # fraction * n within a few ulp of an integer, on either side (the three places that truncate it must agree)
+        nb = g.choice([2, 3, 7, 10, 50, 100, 49, 128, 200]); kb = g.randint(1, nb - 1); fb = kb / nb
+        fb = g.choice([fb, math.nextafter(fb, 0.0), math.nextafter(fb, 1.0), math.nextafter(math.nextafter(fb, 0.0), 0.0), g.choice([0.29, 0.57, 0.58, 0.07, 0.14, 0.28, 0.55])])
+        if fb in (0.29, 0.57, 0.58, 0.07, 0.14, 0.28, 0.55): nb = 100
+        cs.append(Case('o.c05.composite %s %d %s %s %s' % (dhex(fb), nb, dhex(kappa), hexes(SA), hexes(SB)), 'orc', 'composite-moments-count-boundary', check=c05_small(2, 1e-12)))
         A, B = pure_state(g), pure_state(g)
         coh = g.choice([0.0, 0.25, 0.5, 1.0, g.random()])
         # mean at every coherence; covariance only at zero coherence (second residual masked otherwise)
